@@ -22,7 +22,7 @@ def handle (input : Json) : Except String Json := do
   let tmpl ← Driver.fldStr input "template"
   if tmpl == "testify" then
     -- the emitted code declares no state of its own next to testify's
-    let ok := Mockery.Generated.testifyStructFields == ["*mock.Call", "mock *mock.Mock", "mock.Mock"] &&
+    let ok := Mockery.Generated.testifyStructFields == ["*TESTIFY.Call", "TESTIFY.Mock", "mock *TESTIFY.Mock"] &&
       Mockery.Generated.testifyPackageVars.isEmpty
     let threads ← Driver.fldArr input "threads"
     let nm := (← Driver.fldArr input "methods").size
